@@ -52,9 +52,10 @@ def civil_c05_goals():
            [enforce('civil', 'ct_%s_plus' % t, timeout=600) for t in ts] + \
            [enforce('civil', 'ct_%s_minus' % t, timeout=600) for t in ('minute', 'hour', 'day')] + \
            [enforce('civil', 'ct_second_minus', timeout=600, defines=['OSEC_OPAQUE'])] + \
+           [enforce('civil', f, timeout=600) for f in ('step_year', 'ct_year_plus', 'ct_year_minus', 'ct_year_diff')] + \
            [plain('civil', 'pl_lemma_osec_inj', timeout=600), plain('civil', 'pl_lemma_unitrepr', timeout=600)] + \
            [G('pl_C05_%s_%s' % (k, t), 'civil', harness='pl_C05_%s_%s' % (k, t), kind='lemma', timeout=900,
-              replace=['ct_%s_plus' % t, 'ct_%s_minus' % t, 'ct_%s_diff' % t]) for t in ts for k in ('inverse', 'diffplus')] + \
+              replace=['ct_%s_plus' % t, 'ct_%s_minus' % t, 'ct_%s_diff' % t]) for t in ts + ('year',) for k in ('inverse', 'diffplus')] + \
            [enforce('civil', 'ct_%s_diff' % t, timeout=600) for t in ts] + \
            [enforce('civil', 'ct_' + r) for r in ('lt', 'le', 'gt', 'ge', 'eq', 'ne')]
 
@@ -135,16 +136,16 @@ PROPERTIES['C05'] = dict(
     trusted_base=['/verif/stubs/prelude.h', '/verif/spec/gregorian.h',
                   'opaque specification symbols with definitions assumed at instantiated tuples (REVEAL_* macros)'],
     level_text='Unbounded proof, for all valid civil times with int64 years and all int64 n within the representability bound, that for the second, minute, '
-               'hour and day alignments a + n moves the unit ordinal by exactly n (step_T through the carry chain proved under C04), that the difference of two '
+               'hour, day and year alignments a + n moves the unit ordinal by exactly n (step_T through the carry chain proved under C04), that the difference of two '
                'civil times is the difference of their unit ordinals (impl::ymd_ord and impl::day_difference proved against the day ordinal through the 400-year reduction lemma_dd, '
                'then the scale_add chain, no intermediate overflow), and that the '
                'relational operators are the lexicographic order on the six fields; code-free lemmas show the day ordinal orders valid dates exactly like '
                '(year, month, day) (lemma_dayord_lex), so the order agrees with the sign of the difference.  The two inverse laws (a + n) - n == a and (a - b) + b == a are '
                'property lemmas over the operator contracts (pl_C05_inverse_T, pl_C05_diffplus_T) using injectivity of the second ordinal (lemma_osec_inj).',
     level_note='operator-(n), including n = INT64_MIN (two-step path), is discharged for the second, minute, hour and day alignments (civil_second with the second ordinal '
-               'as an opaque symbol, see contracts/civil.h OSEC_OPAQUE). NOT discharged: the month and year alignments (step_month, step_year, ct_month_*, ct_year_*), for which the operator contracts and hence the inverse laws are not established. '
+               'as an opaque symbol, see contracts/civil.h OSEC_OPAQUE). NOT discharged: the month alignment (step_month, ct_month_*), for which the operator contracts and hence the inverse laws are not established. '
                'These parts are not counted as proved.',
-    not_decided='month and year alignment arithmetic (and the inverse laws for those two alignments)',
+    not_decided='month alignment arithmetic (and the inverse laws for civil_month)',
     assumptions=[],
 )
 
